@@ -123,6 +123,22 @@ def corruptions(rng, kind, doc, n):
             if key in tgt:
                 del tgt[key]
                 out.append({"doc": d, "what": "delete-key:%s.%s" % (skind, key), "must_reject": True})
+        elif k < 0.52 and kind == "composeinfo":
+            # cross-field rule between a child variant and its DIRECT parent: one architecture the parent does not have
+            # (taken from the grandparent's set when there is one, so that some other ancestor does have it)
+            vs = d["payload"]["variants"]
+            parent_of = {pu + "-" + cid: pu for pu, pv in vs.items() for cid in pv.get("variants", []) if pu + "-" + cid in vs}
+            if not parent_of:
+                continue
+            cu = rng.choice(sorted(parent_of, key=lambda u: (-u.count("-"), u))[:max(1, len(parent_of) // 2)])
+            pu = parent_of[cu]
+            pool = []
+            if pu in parent_of:
+                pool = [a for a in vs[parent_of[pu]]["arches"] if a not in vs[pu]["arches"]]
+            extra = rng.choice(pool) if pool else rng.choice([a for a in ["s390x", "aarch64", "x86_64", "ppc64le", "i386"] if a not in vs[pu]["arches"]])
+            vs[cu]["arches"] = sorted(set(vs[cu]["arches"]) | {extra})
+            out.append({"doc": d, "what": "cross-field:variant %s lists the architecture %r that its parent %s does not have%s" % (
+                cu, extra, pu, " (the grandparent does)" if pool else ""), "must_reject": True})
         elif k < 0.5 and kind == "images" and len([x for x in secs if x[0] == "image"]) >= 2:
             # identity rule across the whole manifest: give one image the identity of an image filed in ANOTHER cell, keep its checksums
             imgs = [x for x in secs if x[0] == "image"]
